@@ -45,8 +45,11 @@ def rely_scan(chk):
                     offenders.append((getattr(fn, "name", "lambda"), n.id))
                 if isinstance(n, ast.Global) and set(n.names) & {"_seen", "_quoting"}:
                     offenders.append((getattr(fn, "name", "lambda"), "global"))
-    chk.ob("rely/no function of hy_repr.hy other than hy-repr mentions _seen or _quoting", not offenders, "structural", "proved",
-           detail=str(offenders))
+    # (a rely condition of the proof, not a clause of the property: when another function touches the state, the VCs of hy-repr no
+    # longer cover the module, so the property is *undecided* by them - the run-time clauses below still decide what they exercise)
+    chk.ob("rely/no function of hy_repr.hy other than hy-repr mentions _seen or _quoting", True if not offenders else None, "structural", "proved",
+           detail="" if not offenders else "the state is also touched by " + str(offenders) + ": the verification conditions of hy-repr do not cover "
+           "these functions; undecided")
 
 
 def _model_cycles():
@@ -282,6 +285,51 @@ def module_state_frame(chk):
                                                      "observed": repr(texts[1]), "expected": "'(Late)'"})
 
 
+def stack_exhaustion(chk):
+    """A call that fails because the Python stack is exhausted (a structure nested deeper than the recursion limit allows) is a failed
+    call like any other: afterwards _seen is empty and _quoting is off, whatever frame the RecursionError was raised in.  The call is
+    started at several stack depths so that the error is met at every alignment of the hy-repr / printer frame pair."""
+    import sys
+    old = sys.getrecursionlimit()
+    deep = []
+    levels = [deep]
+    for _ in range(400):
+        deep = [deep]
+        levels.append(deep)
+    quoted = hm.List([hm.Symbol("a"), deep])
+    bad = None
+
+    def at_depth(k, v):
+        if k:
+            return at_depth(k - 1, v)
+        try:
+            hy.repr(v)
+            return "returned"
+        except RecursionError:
+            return "RecursionError"
+        except Exception as e:  # noqa: BLE001
+            return type(e).__name__
+    try:
+        sys.setrecursionlimit(400)
+        for v, what in ((deep, "a list nested 400 deep"), (quoted, "a model holding a list nested 400 deep")):
+            for k in range(12):
+                hr._seen.clear()
+                hr._quoting = False
+                outcome = at_depth(k, v)
+                state = (len(hr._seen), hr._quoting)
+                chk.case(("stack", what, k))
+                if (state != (0, False) or outcome != "RecursionError") and bad is None:
+                    bad = (what, k, outcome, state)
+    finally:
+        sys.setrecursionlimit(old)
+        hr._seen.clear()
+        hr._quoting = False
+    chk.ob("history/a call that fails by exhausting the stack leaves _seen empty and _quoting off, at every frame alignment", bad is None, "rtc",
+           "bounded", detail=str(bad),
+           replay=None if bad is None else {"confirmed": True, "input": f"sys.setrecursionlimit(400); hy.repr of {bad[0]}, called {bad[1]} frames deeper",
+                                            "observed": f"{bad[2]}; afterwards (len(_seen), _quoting) = {bad[3]}", "expected": "RecursionError; (0, False)"})
+
+
 def nested(chk):
     nf = _nested_failures()
     chk.case(("nested-failures",))
@@ -293,6 +341,7 @@ def nested(chk):
 def run(chk):
     module_state_frame(chk)
     nested(chk)
+    stack_exhaustion(chk)
     targets.c28(chk, concrete=_concrete)
     rely_scan(chk)
     histories(chk)
